@@ -111,6 +111,8 @@ func ParseHeaderDirective(header http.Header) *HeaderDirectives {
 			if cc, err := parseCacheControl(strings.Join(values, ",")); err == nil {
 				hd.CacheControl.value = typeutils.Some(cc)
 			} else {
+				// Malformed, but what could be understood (e.g. no-store) still applies.
+				hd.CacheControl.value = typeutils.Some(cc)
 				slog.Debug("Error parsing Cache-Control header", "error", err, "value", value)
 			}
 		case "Expires":
